@@ -60,6 +60,10 @@ type WL struct {
 	// (the sizes at which buffered readers stop looking: 512, 4096, 32768, 65536). Pad is the padding found
 	// (recorded by the run that found it, so that a replay does not search again).
 	Align int `json:"align,omitempty"`
+	// AlignM > 0: the driver name recorded in the manifest is padded so that manifest.json is exactly a
+	// multiple of 512 / 4096 bytes, 512*(2^k-1) bytes (the fill points of a doubling read buffer) or a power
+	// of two, optionally plus one (selector AlignM 1..8).
+	AlignM int `json:"align_manifest,omitempty"`
 }
 
 var kindsFor = map[string][]string{
@@ -105,7 +109,14 @@ func gen(r *rand.Rand) WL {
 	if r.IntN(15) == 0 {
 		w.Align = []int{512, 4096, 4096, 4096, 32768, 65536}[r.IntN(6)]
 	}
+	if r.IntN(15) == 0 {
+		w.AlignM = 1 + r.IntN(8)
+	}
 	for i := 0; i < 30; i++ {
+		if w.AlignM > 0 && i%3 == 0 {
+			w.Muts = append(w.Muts, Mut{Consumer: "loaddir", Kind: []string{"extra_garbage_manifest", "extra_garbage_manifest", "manifest_trunc", "manifest_byte"}[r.IntN(4)], A: r.Uint32(), B: r.Uint32(), C: r.Uint32()})
+			continue
+		}
 		if w.Align > 0 && i%3 == 0 {
 			w.Muts = append(w.Muts, Mut{Consumer: "loaddir", Kind: []string{"frag_extend", "frag_extend", "frag_trunc", "frag_byte"}[r.IntN(4)], A: r.Uint32(), B: r.Uint32(), C: r.Uint32()})
 			continue
@@ -181,13 +192,52 @@ func build(t *testing.T, cfg simrt.Config, w WL, base string, counters map[strin
 	// inside a simulated run the clock is the bubble's fake clock, so generated_at (and with it the
 	// manifest's length and every byte offset) is a function of the seed alone
 	var derr error
-	if c, d := stor.UnderSim(t, cfg, "build-dump", func() {
-		_, derr = retriever.Dump(context.Background(), src, "simdb", stor.Targets(w.DB), stor.DumpOptions(a.dump, w.Opts))
-	}); c != "" {
-		return nil, fmt.Errorf("dump under simulator: %s: %s", c, d)
+	driver := "simdb"
+	for attempt := 0; attempt < 2; attempt++ {
+		if c, d := stor.UnderSim(t, cfg, "build-dump", func() {
+			_, derr = retriever.Dump(context.Background(), src, driver, stor.Targets(w.DB), stor.DumpOptions(a.dump, w.Opts))
+		}); c != "" {
+			return nil, fmt.Errorf("dump under simulator: %s: %s", c, d)
+		}
+		if derr != nil {
+			return nil, fmt.Errorf("dump: %w", derr)
+		}
+		if w.AlignM == 0 || attempt == 1 {
+			break
+		}
+		st, err := os.Stat(filepath.Join(a.dump, "manifest.json"))
+		if err != nil {
+			return nil, err
+		}
+		size := int(st.Size())
+		target := size
+		switch (w.AlignM - 1) / 2 {
+		case 0:
+			target = (size + 511) / 512 * 512
+		case 1:
+			target = (size + 4095) / 4096 * 4096
+		case 2:
+			for k := 1; ; k++ {
+				if t := 512 * (1<<k - 1); t >= size {
+					target = t
+					break
+				}
+			}
+		default:
+			target = 1
+			for target < size {
+				target *= 2
+			}
+		}
+		target += (w.AlignM - 1) % 2
+		driver += strings.Repeat("x", target-size)
+		os.RemoveAll(a.dump)
+		src = stor.Build(w.DB)
 	}
-	if derr != nil {
-		return nil, fmt.Errorf("dump: %w", derr)
+	if w.AlignM > 0 {
+		if st, err := os.Stat(filepath.Join(a.dump, "manifest.json")); err == nil {
+			counters[fmt.Sprintf("manifest_size_aligned_mod512_%d", st.Size()%512)]++
+		}
 	}
 	var err error
 	if a.manifest, err = os.ReadFile(filepath.Join(a.dump, "manifest.json")); err != nil {
@@ -336,6 +386,39 @@ var hostiles = []hostile{
 	{"pax_long_name_parent", true, func(a *art) tarEntry {
 		return reg(strings.Repeat("a/", 120)+"../"+strings.Repeat("../", 125)+"victim/long.txt", "x")
 	}},
+}
+
+// generatedClimb draws an entry name from a small path grammar: ordinary components mixed with
+// DECORATED parent components (".." with leading/trailing blanks, tabs, NBSP, a trailing dot, NUL, a
+// percent escape, a mixed separator) - names a sanitiser may normalise after it has checked them.
+// Such a name may be a perfectly legal file name, so nothing demands rejection; what is demanded is
+// containment (every file-system call stays below the requested output directory) and no partial
+// output after an error.
+func generatedClimb(mu Mut) hostile {
+	dec := []string{".. ", " ..", " .. ", "..\t", "\t..", "..\u00a0", "...", "..\x00", "%2e%2e", "..;", ".\u200b."}
+	plain := []string{"graphs", "x", "default", ".", "a b"}
+	x := uint64(mu.B)<<32 | uint64(mu.C)
+	next := func(n int) int { x = x*6364136223846793005 + 1442695040888963407; return int(x>>33) % n }
+	var parts []string
+	for i := 0; i < next(3); i++ {
+		parts = append(parts, plain[next(len(plain))])
+	}
+	d := dec[next(len(dec))]
+	climbs := len(parts) + 1 + next(3)
+	for i := 0; i < climbs; i++ {
+		if next(4) == 0 {
+			parts = append(parts, dec[next(len(dec))])
+		} else {
+			parts = append(parts, d)
+		}
+	}
+	parts = append(parts, []string{"victim", "passwd", "allowed"}[next(3)])
+	if next(2) == 0 {
+		parts = append(parts, "gen.txt")
+	}
+	sep := "/"
+	name := strings.Join(parts, sep)
+	return hostile{"generated_decorated_parent", false, func(a *art) tarEntry { return reg(name, "x") }}
 }
 
 // ---- consumers ----
@@ -832,8 +915,13 @@ func (a *art) runLoadDir(mu Mut) (string, string) {
 		os.WriteFile(mp, a.manifest[:int(mu.A)%len(a.manifest)], 0o600)
 		mustErr = false // cutting only the trailing newline leaves the same document (H3)
 	case "extra_garbage_manifest":
-		os.WriteFile(mp, append(append([]byte{}, a.manifest...), []byte("{}")...), 0o600)
-		mustErr = false
+		// bytes appended after the manifest document. White space leaves the same JSON document (H3); anything
+		// else is an extension of what was produced and must be refused
+		tails := []string{"{}", "x", "\n{\"format\":\"x\"}\n", "]", "\x00", "0", " \n\t ", string(a.manifest)}
+		tail := tails[int(mu.B)%len(tails)]
+		os.WriteFile(mp, append(append([]byte{}, a.manifest...), []byte(tail)...), 0o600)
+		mustErr = strings.TrimSpace(tail) != ""
+		tag += fmt.Sprintf(" (+%d bytes)", len(tail))
 	default:
 		nb, ok := editManifest(a.manifest, func(m map[string]any) bool {
 			f, list, has := firstFile(m, mu.A)
@@ -1097,11 +1185,18 @@ func (a *art) mutateStream(mu Mut, enc bool) (data []byte, key hpke.PrivateKey, 
 		}
 		data = joinEnc(head, f2)
 	case "hostile":
-		h := hostiles[int(mu.A)%len(hostiles)]
+		h := hostiles[int(mu.A)%(len(hostiles)+4)%len(hostiles)]
+		if int(mu.A)%(len(hostiles)+4) >= len(hostiles) {
+			h = generatedClimb(mu)
+		}
 		es := parseTar(a.tarBytes)
 		pos := int(mu.B) % (len(es) + 1)
 		es2 := append(append(append([]tarEntry{}, es[:pos]...), h.entry(a)), es[pos:]...)
 		data = writeTar(es2)
+		if len(parseTar(data)) != len(es2) {
+			// archive/tar refused to write the entry (e.g. a NUL in the name): nothing was tampered with
+			return nil, nil, 0, false, "", false
+		}
 		mustErr = h.mustErr || enc // the collection consumers also reject files the manifest does not list
 		if enc {
 			data = a.encrypt(data, 1+int(mu.C)%2048)
